@@ -62,9 +62,7 @@ def _weighted_geometric_mean(x, sample_weight=None, axis=None):
         Weighted geometric mean
     """
     check_consistent_length(x, sample_weight)
-    return np.exp(
-        np.sum(sample_weight * np.log(x), axis=axis) / np.sum(sample_weight, axis=axis)
-    )
+    return np.exp(np.average(np.log(x), weights=sample_weight, axis=axis))
 
 
 def mean_asymmetric_error(
